@@ -145,5 +145,47 @@ def spread_all(src):
     return cur if cur != src else None
 
 
+def break_all(src, every=1, phase=0):
+    """Start a continuation line in COLUMN 0 before every `every`-th token of each line: a plain line break where a bracket
+    is open, backslash-newline elsewhere (`x = (a\nor b)`, `if a \\\nand b:`) - wherever CPython's tokenizer still yields
+    the same token sequence."""
+    toks = tokens(src)
+    if toks is None:
+        return None
+    want = sig(toks)
+    sp = spans(src, toks)
+    cur = src
+    depth = []
+    d = 0
+    for a, b, t in sp:
+        depth.append(d)
+        if t.type == tokenize.OP and t.string in "([{":
+            d += 1
+        elif t.type == tokenize.OP and t.string in ")]}":
+            d = max(0, d - 1)
+    fs = (getattr(tokenize, "FSTRING_MIDDLE", -1), getattr(tokenize, "FSTRING_END", -1), getattr(tokenize, "FSTRING_START", -1))
+    in_fs = 0
+    fsdepth = []
+    for a, b, t in sp:
+        fsdepth.append(in_fs)
+        if t.type == fs[2]:
+            in_fs += 1
+        elif t.type == fs[1]:
+            in_fs = max(0, in_fs - 1)
+    for k in range(len(sp) - 1, 0, -1):
+        if (k + phase) % every:
+            continue
+        a, b, t = sp[k]
+        pa, pb, pt = sp[k - 1]
+        if "\n" in cur[pb:a] or fsdepth[k] or t.type in fs or pt.type in fs:
+            continue
+        brk = "\n" if depth[k] > 0 else " \\\n"
+        cand = cur[:pb] + brk + cur[a:]
+        ct = tokens(cand)
+        if ct is not None and sig(ct) == want:
+            cur = cand
+    return cur if cur != src else None
+
+
 def is_keyword(s):
     return keyword.iskeyword(s)
